@@ -223,7 +223,6 @@ class Gen:
         if n > 3 and op != "Trace":
             # delegated to numpy.linalg by the source: compared with the exact Leibniz / adjugate
             # oracle only, to 1e-10 (LAPACK on small integer matrices)
-            c["model"] = False
             c["tol"] = 1e-10
         return c
 
@@ -523,8 +522,8 @@ def directed_cases():
     m5 = [1, 0, 2, 0, 1, 0, 1, 0, 3, 0, 1, 0, 1, 0, 2, 0, 1, 0, 1, 0, 0, 0, 1, 0, 2]
     for n, m in ((4, m4), (5, m5)):
         for op in ("Det", "Inv"):
-            C.append({"op": op, "args": [{"k": "fe", "shape": [2, 1, n, n], "data": m + [m[j * n + i] for i in range(n) for j in range(n)]}], "model": False, "tol": 1e-10})
-            C.append({"op": op, "args": [{"k": "plain", "shape": [n, n], "data": m}], "model": False, "tol": 1e-10})
+            C.append({"op": op, "args": [{"k": "fe", "shape": [2, 1, n, n], "data": m + [m[j * n + i] for i in range(n) for j in range(n)]}], "tol": 1e-10})
+            C.append({"op": op, "args": [{"k": "plain", "shape": [n, n], "data": m}], "tol": 1e-10})
     # wrap: results whose shape looks like a field but is not on the (Ne, nPg) axes
     C.append({"op": "einsum", "labels": [[0, 1]], "out": [1, 0], "args": [fe([2, 2, 2, 2])]})
     C.append({"op": "where", "args": [fe([2, 2], [0, 1, 1, 0]), fe([2, 2]), sc(0)]})
@@ -718,7 +717,10 @@ def coq_obs(c, r):
 
 HEADER = ("From Coq Require Import List Arith Bool ZArith QArith.\n"
           "From EFModel Require Import C12_FeShape C12_FeTensor C12_FeQ.\n"
-          "From EFP Require Import Gen_Linalg.\nImport ListNotations.\nLocal Open Scope nat_scope.\n")
+          "From EFP Require Import Gen_Linalg.\nImport ListNotations.\nLocal Open Scope nat_scope.\n"
+          "(* dims 1-3: the closed forms regenerated from _linalg.py; dims > 3 (numpy fallback in the source): the\n"
+          "   generic Leibniz determinant / adjugate of C12_FeDetN, see coq/props/C12/C12_detn.v *)\n"
+          "Definition detQ := det_ext gen_detQ.\nDefinition invQ := inv_ext gen_invQ.\n")
 
 
 def case_key(c):
@@ -882,13 +884,16 @@ def correspondence(ctx, ncases, cap, per_file=400):
         body = HEADER
         for c in cases[f0:f0 + per_file]:
             r = results[c["id"]]
-            if c.get("model") is False:
+            if c["op"] in ("Det", "Inv") and c.get("tol") and r["kind"] < 10:
+                # numpy.linalg fallback of the source (dim > 3): floats against the exact Leibniz / adjugate of the model
+                body += "Eval vm_compute in (%d, agrees_tol (1 # 10000000000) detQ invQ (%s) %s).\n" % (c["id"], coq_expr(c), coq_obs(c, r))
+            elif c.get("model") is False:
                 # oracle-only family: decided by the independent per-(e,p) loop oracle on the implementation side
                 body += "Eval vm_compute in (%d, %s).\n" % (c["id"], "true" if r.get("oracle_ok") is True else "false")
             elif r["kind"] >= 20:      # not an array at all (object array, NaN): cannot agree with any model value
                 body += "Eval vm_compute in (%d, false).\n" % c["id"]
             else:
-                body += "Eval vm_compute in (%d, agrees_err gen_detQ gen_invQ (%s) %s).\n" % (c["id"], coq_expr(c), coq_obs(c, r))
+                body += "Eval vm_compute in (%d, agrees_err detQ invQ (%s) %s).\n" % (c["id"], coq_expr(c), coq_obs(c, r))
         files.append(("Cases_%03d.v" % (f0 // per_file), body))
 
     def run(fb):
@@ -961,7 +966,7 @@ def report(ctx, cases, results, bad, rbad):
     reps = {k: min(v, key=rep_rank) for k, v in groups.items()}
     # second pass: what does the model say for the representatives
     modelled = [c for c in reps.values() if c.get("model") is not False]
-    body = HEADER + "".join("Eval vm_compute in observeZ gen_detQ gen_invQ (%s).\n" % coq_expr(c) for c in modelled)
+    body = HEADER + "".join("Eval vm_compute in observeZ detQ invQ (%s).\n" % coq_expr(c) for c in modelled)
     rc, txt = ctx.coq_eval("Cases_failed.v", body, timeout=600)
     chunks = [x for x in re.split(r"\n\s*:\s*nat \* list nat \* list \(Z \* Z\)\s*", txt) if x.strip()]
     parsed = [parse_obs_line(x.strip()) for x in chunks]
@@ -1037,6 +1042,16 @@ def run(ctx):
         r1 = ctx.coq(["Gen_Linalg.v", "C12_linalg.v"], timeout=900)
         r2 = ctx.coq(["C12_theorems.v"], timeout=900)
         failed += [r for r in (r1, r2) if not r.ok]
+        if r1.ok:
+            ctx.copy_props("C12/C12_detn.v")
+            r5 = ctx.coq(["C12_detn.v"], timeout=600)
+            if not r5.ok:
+                failed.append(r5)
+            if ctx.tier == "thorough":      # 32 ring identities of degree 4 in 16 variables: ~10 s
+                ctx.copy_props("C12/C12_detn_adj.v")
+                r6 = ctx.coq(["C12_detn_adj.v"], timeout=900)
+                if not r6.ok:
+                    failed.append(r6)
         try:
             open(os.path.join(ctx.build, "Gen_TensorProd.v"), "w").write(T_lin.generate_tensorprod(ctx.repo))
             ctx.copy_props("C12/C12_tensorprod.v")
@@ -1060,7 +1075,7 @@ def run(ctx):
         for r in failed:
             ctx.log("proof obligations broke in %s" % r.failed_file)
         ctx.sample({"theorem": "C12_elementwise_pointwise", "statement": "forall V vbin op a c Ne nPg s, shape a = Ne::nPg::s -> (np_bcast s (shape c) = Some u -> fe op plain and plain op fe are FeArrays of shape Ne::nPg::u with res[e,p,K] = op(a[e,p,K|s], c[K|t]) in the written order) /\\ (None -> ValueError)", "assumptions": "closed under the global context"})
-    n, cap = (1800, 1200) if ctx.tier == "quick" else (8000, 2500)
+    n, cap = (1700, 1200) if ctx.tier == "quick" else (8000, 2500)
     nviol0 = len(ctx.violations)
     if gen is None:
         # the case files need the generated closed forms; without them only report the translator failure
